@@ -421,3 +421,19 @@ impl Spec {
         !self.domain_ok_signed_input()
     }
 }
+
+/// replace the Echo leaf of a single-window view by `inner`
+pub fn rebase(s: &Spec, inner: &Spec) -> Spec {
+    let mut v = serde_json::to_value(s).expect("spec to json");
+    fn walk(v: &mut serde_json::Value, inner: &serde_json::Value) {
+        match v {
+            serde_json::Value::String(x) if x == "Echo" => *v = inner.clone(),
+            serde_json::Value::Array(a) => a.iter_mut().for_each(|x| walk(x, inner)),
+            serde_json::Value::Object(o) => o.values_mut().for_each(|x| walk(x, inner)),
+            _ => {}
+        }
+    }
+    walk(&mut v, &serde_json::to_value(inner).expect("spec to json"));
+    serde_json::from_value(v).expect("json to spec")
+}
+
